@@ -528,7 +528,8 @@ func c08Child() {
 	}); err != nil {
 		h.Die("c08-child: %v", err)
 	}
-	dir, err := os.MkdirTemp("", "c08-")
+	// temporary files live under --tmp (the parent's scratch directory) so that nothing survives a killed child
+	dir, err := os.MkdirTemp(h.Arg("--tmp"), "c08-")
 	if err != nil {
 		h.Die("c08: %v", err)
 	}
@@ -551,7 +552,9 @@ func c08Child() {
 	}
 	e.loadBases(repo)
 	debug.SetMaxStack(h.ArgInt("--maxstack-mb", 64) << 20)
-	debug.SetMemoryLimit(8 << 30)
+	if os.Getenv("GOMEMLIMIT") == "" {
+		debug.SetMemoryLimit(8 << 30)
+	}
 	pops := pdfOps()
 	opsMode := h.Arg("--ops")
 	baseCPU := time.Duration(h.ArgInt("--cpu-ms", 1500)) * time.Millisecond
@@ -603,6 +606,9 @@ func c08Child() {
 			if len(data) > 256<<10 {
 				ops = selectBigOps(ops, c.Shape)
 			}
+		} else if c.Shape.Fam == "depth" && len(data) > 2<<20 {
+			// thorough tier: the 10^5 object chains get the core entry points plus those that traverse the relation
+			ops = selectOps(pops, c.Shape)
 		}
 		for k, op := range ops {
 			if cio.skip(k + 1) {
@@ -669,7 +675,7 @@ type breaker struct {
 	set  map[string]bool
 }
 
-const breakerK = 3
+const breakerK = 2
 
 func (b *breaker) broken(rel, op string) bool {
 	if b.path == "" {
@@ -687,6 +693,13 @@ func (b *breaker) broken(rel, op string) bool {
 		}
 	}
 	return b.set[rel+"|"+op]
+}
+
+func envOr(name, def string) string {
+	if v := os.Getenv(name); v != "" {
+		return v
+	}
+	return def
 }
 
 func trimStr(s string, n int) string {
@@ -717,7 +730,12 @@ func c08Main() {
 	byCase := make([][]c08OpRec, len(cases))
 	dead := 0
 	cpuMs := h.ArgInt("--cpu-ms", 1500)
-	cfgDir, err := os.MkdirTemp("", "c08-cfg-")
+	tmpBase, err := os.MkdirTemp(filepath.Dir(out), "c08-tmp-")
+	if err != nil {
+		h.Die("c08: %v", err)
+	}
+	defer os.RemoveAll(tmpBase)
+	cfgDir, err := os.MkdirTemp(tmpBase, "cfg-")
 	if err != nil {
 		h.Die("c08: %v", err)
 	}
@@ -732,7 +750,7 @@ func c08Main() {
 	r := &runner{sub: "c08-child", n: len(cases), workers: workers,
 		confirmArgs: []string{"--cpu-ms", fmt.Sprint(3 * cpuMs)},
 		args: []string{"--in", in, "--repo", repo, "--mutk", h.Arg("--mutk"), "--trunck", h.Arg("--trunck"), "--maxstack-mb", h.Arg("--maxstack-mb"),
-			"--cpu-ms", h.Arg("--cpu-ms"), "--cpu-ns-per-byte", h.Arg("--cpu-ns-per-byte"), "--ops", h.Arg("--ops"), "--breaker", brkPath, "--cfgdir", cfgDir},
+			"--cpu-ms", h.Arg("--cpu-ms"), "--cpu-ns-per-byte", h.Arg("--cpu-ns-per-byte"), "--ops", h.Arg("--ops"), "--breaker", brkPath, "--cfgdir", cfgDir, "--tmp", tmpBase},
 		env: []string{"GOMAXPROCS=2"},
 		deadline: func(idx int, op string) time.Duration {
 			// The child enforces a CPU time budget proportional to the input size itself; this wall clock bound is the
